@@ -53,6 +53,25 @@ Theorem c06_ttl_window : forall f e, draw_ok f -> dur_ok e ->
 Proof. exact ttl_window. Qed.
 Print Assumptions c06_ttl_window.
 
+(* ... for EVERY expiry: dur_ok e is 0 <= e and 20 ns | e, there is no upper bound (1 h, 101 d, 10 y alike); and
+   from one second on the TTL is at least one second, so SETEX never degenerates into "no expiry". *)
+Theorem c06_ttl_positive : forall f e, draw_ok f -> dur_ok e -> sec <= e ->
+  1 <= ttl_lo e <= ceil_secs (around f e).
+Proof.
+  intros f e Hf He Hs. split; [|apply ttl_window; assumption].
+  unfold ttl_lo, ceil_secs in *. destruct He as [H0 Hm].
+  assert (E : e = 20 * (e / 20)) by (pose proof (Z.div_mod e 20); lia).
+  apply Z.div_le_lower_bound; unfold sec in *; lia.
+Qed.
+Print Assumptions c06_ttl_positive.
+
+Example c06_ttl_long_expiries :
+  (* 101 d and 10 y, at both ends of the jitter *)
+  ceil_secs (around (19 # 20) (8726400 * sec)) = 8290080 /\ ceil_secs (around (21 # 20) (8726400 * sec)) = 9162720 /\
+  ceil_secs (around (19 # 20) (315360000 * sec)) = 299592000 /\ ceil_secs (around (21 # 20) (315360000 * sec)) = 331128000 /\
+  ttl_lo (315360000 * sec) = 299592000 /\ ttl_hi (315360000 * sec) = 331128000 /\ dur_ok (315360000 * sec).
+Proof. repeat split; try reflexivity; discriminate. Qed.
+
 (* TTL window, on the model: whatever a cache operation stores (every key either keeps its entry, loses
    it, or gets an entry (v, x)) has x - now in the window of notFoundExpire for the placeholder and of
    expire (or expire + the 5 s gap, for a row stored through an index) for values. *)
